@@ -251,7 +251,9 @@ func (r *Runner) settle() bool {
 func (r *Runner) store(i int) iface.Store { return r.DB.Stores[i] }
 
 // Write performs op on peer i and records the acknowledgement.
-func (r *Runner) Write(i int, op Op) error {
+func (r *Runner) Write(i int, op Op) error { return r.write(i, op, false) }
+
+func (r *Runner) write(i int, op Op, concurrent bool) error {
 	s := r.store(i)
 	if s == nil || !r.Peers[i].Running() {
 		return fmt.Errorf("peer down")
@@ -261,7 +263,21 @@ func (r *Runner) Write(i int, op Op) error {
 		before[e.GetHash().String()] = true
 	}
 	beforeLen := len(before)
+	var present, judgeDel bool
+	if r.Cfg.Type == tDocs && op.Kind == "del" && !concurrent {
+		sn := TakeSnap(tDocs, s, i)
+		_, present = ModelDocs(sn.Entries, sn.Order)[op.Key]
+		judgeDel = true
+	}
 	res, err := ApplyOp(bg, s, op)
+	if judgeDel {
+		r.V.Count("doc_delete_presence_checks", 1)
+		if present && err != nil {
+			r.fail("delete-of-present-key-refused", fmt.Sprintf("p%d Delete(%q) of a document present in the replay was refused: %v", i, op.Key, err))
+		} else if !present && err == nil {
+			r.fail("delete-of-absent-key-accepted", fmt.Sprintf("p%d Delete(%q) of a document absent from the replay was accepted", i, op.Key))
+		}
+	}
 	if err != nil {
 		r.logf("write p%d %s -> error %v", i, op, err)
 		// a refused write must not append
@@ -366,7 +382,7 @@ func (r *Runner) Exec(steps []Step) {
 				r.ConcSteps++
 			}
 			wg.Add(1)
-			go func() { defer wg.Done(); _ = r.Write(st.A, *st.Op) }()
+			go func() { defer wg.Done(); _ = r.write(st.A, *st.Op, true) }()
 			wg.Wait()
 			r.settle()
 		case "d":
@@ -421,7 +437,7 @@ func (r *Runner) Exec(steps []Step) {
 			}
 		case "sync":
 			src, dst := r.store(st.A), r.store(st.B)
-			if src != nil && dst != nil && r.Peers[st.A].Running() && r.Peers[st.B].Running() {
+			if src != nil && dst != nil && r.Peers[st.A].Running() && r.Peers[st.B].Running() && w.Linked(r.Peers[st.A], r.Peers[st.B]) {
 				heads := cloneHeads(headsOf(src))
 				r.logf("sync %d<-%d (%d heads)", st.B, st.A, len(heads))
 				ctx, cancel := context.WithTimeout(bg, 30*time.Second)
